@@ -352,7 +352,9 @@ def run(case, out):
         if name in NGRAMS:
             # query mode too (the stand-alone highlight() function analyses the text in query mode)
             for t, pos, sc, ec in toks(ana, text, "query"):
-                if sc is not None and text[sc:ec].lower() != t and text[sc:ec] != t:
+                # (lower-casing is context-sensitive - a capital sigma becomes a final or a medial small sigma depending
+                # on its neighbours - so the slice lowered on its own is compared with the gram up to case folding)
+                if sc is not None and text[sc:ec].lower() != t and text[sc:ec] != t and text[sc:ec].casefold() != t.casefold():
                     word = re.search(r"\S*$", text[:sc]).group(0) + re.match(r"\S*", text[sc:]).group(0)
                     if any(len(ch.lower()) != 1 for ch in word):
                         continue   # recorded finding (length-changing lowercase)
@@ -360,7 +362,7 @@ def run(case, out):
                              {"text": text, "token": t, "slice": text[sc:ec], "offsets": [sc, ec], "ftype": ftype})
                     return
             for t, pos, sc, ec in itoks:
-                if sc is not None and text[sc:ec].lower() != t and text[sc:ec] != t:
+                if sc is not None and text[sc:ec].lower() != t and text[sc:ec] != t and text[sc:ec].casefold() != t.casefold():
                     # known finding: a LowercaseFilter in front of NgramFilter changes the length of the word
                     # (only U+0130 does that), and the gram offsets are then counted in the lowered word
                     word = re.search(r"\S*$", text[:sc]).group(0) + re.match(r"\S*", text[sc:]).group(0)
